@@ -338,11 +338,21 @@ Definition acase_mismatch (a : acase) : bool :=
   | _, _ => true
   end.
 
-(* spec: a process already current or planned in the job is not planned again *)
+(* spec, at the moment a command is added to a job in progress:
+     - a process already current or planned in the job is not planned again;
+     - when the command receives its target there (non-distributed application, on_command_added), that target is the
+       instance its start request WILL go to (restricted_target_is_preassigned): it must already be one of the job's
+       chosen identifiers, seen RUNNING, know the program and have it enabled (the static clauses of request_ok) *)
 Definition acase_violation (a : acase) : bool :=
   match ac_obs a with
-  | Ok (true, _) =>
+  | Ok (true, tgt) =>
       existsb (fun c => Z.eqb (c_proc c) (c_proc (ac_cmd a))) (j_current (ac_jobs a) ++ j_planned (ac_jobs a))
+      || match c_target (ac_cmd a), tgt with
+         | None, Some t =>
+             negb (sees_running (ac_layout a) t && zmem t (c_known (ac_cmd a))
+                   && negb (zmem t (c_disabled (ac_cmd a))) && zmem t (j_identifiers (ac_jobs a)))
+         | _, _ => false
+         end
   | Ok (false, _) => false
   | Crash _ => true
   end.
